@@ -183,7 +183,15 @@ def _evaluate_require(ast, file_path, package_lua, lua_path=None):
                             len(s.funcname.namepath) == 1 and
                             s.funcname.methodname is None and
                             s.funcname.namepath[0].value in GAME_LOOP_FUNCTION_NAMES):  # noqa: E501
-                        dropped.update(range(s.start_pos, s.end_pos))
+                        # (The statement's range starts with the spaces,
+                        # newlines and comments in front of it. Those stay.)
+                        start_pos = s.start_pos
+                        while (start_pos < s.end_pos and
+                               isinstance(reqd_lua.tokens[start_pos],
+                                          (lexer.TokSpace, lexer.TokNewline,
+                                           lexer.TokComment))):
+                            start_pos += 1
+                        dropped.update(range(start_pos, s.end_pos))
                 if dropped:
                     reqd_lua = lua.Lua.from_lines(
                         [b''.join(t.code
